@@ -7,6 +7,12 @@ func init() {
 
 // genC15: histories cut short by every teardown cause, optionally during a slow callback.
 func genC15(p *Plan, r *RNG) {
+	if r.Chance(1, 20) {
+		// connections of a TLS listener are resources too: handshakes that fail, stall or never start
+		genC09TLS(p, r)
+		p.Flavor = "teardown:" + p.Flavor
+		return
+	}
 	if r.Chance(1, 8) {
 		genRaceExpiry(p, r)
 		p.Flavor = "teardown:" + p.Flavor
